@@ -30,6 +30,12 @@ impl ByteCompiler<'_> {
                 actions.push(JumpRecordAction::Transfer { index: i as u32 });
             }
 
+            if info.is_try_catch_block() {
+                // Leave the handler range of the try block before cleaning up after the
+                // statements around it.
+                actions.push(JumpRecordAction::Transfer { index: i as u32 });
+            }
+
             if let Some(label) = node.label() {
                 if info.label() == Some(label) {
                     actions.push(JumpRecordAction::Transfer { index: i as u32 });
@@ -41,6 +47,8 @@ impl ByteCompiler<'_> {
             }
 
             if info.iterator_loop() {
+                // Close the iterator behind the loop, outside of the loop's handler range.
+                actions.push(JumpRecordAction::Transfer { index: i as u32 });
                 actions.push(JumpRecordAction::CloseIterator {
                     r#async: info.for_await_of_loop(),
                 });
